@@ -890,6 +890,9 @@ func (g *clientGen) start(fs *[]string, do bool) {
 	size := r.pick([]int{20, 24, 28, 60, 200})
 	if g.maxSize > 200 && r.chance(1, 5) {
 		size = r.pick([]int{1024, 1500, 2044, 2048, 2052, 3024, g.maxSize})
+		if lens := litIntsIn(64, 60000, 20); len(lens) > 0 && r.chance(1, 2) {
+			size = lens[r.intn(len(lens))] + r.pick([]int{-4, 0, 4}) // a number of the library's source as the request size
+		}
 	}
 	hid := 1 + r.intn(5)
 	if do {
